@@ -485,6 +485,15 @@ theorem C14_reject_defs_text (env : PEnv) (orc : EvalOracles) (rxOk : Pat → Bo
     (runPlan plan p w 0 []).1.1 = 1 ∧ (runPlan plan p w 0 []).1.2.error = true ∧ Proofs.callsOf plan p w = [] :=
   Proofs.MainText.mainText_invalidDefs env orc rxOk defs confText files input w plan h
 
+/-- What "after `getopt`" means for the models of `main`: the option string of the `getopt` call in mdsort.c (regenerated:
+`Gen.optstring`) declares exactly the options the models take as parameters - `-D name=value` with an argument (the `defs` of
+`mainText`), `-d` (`PEnv.dry`), `-f file` with an argument (`confpath`; `fOpt` of `Model.startPaths`), `-n` (syntax check
+only), `-v` (verbosity: logging is outside every model) - and no other.  A new or removed option letter in the source makes
+this false. -/
+theorem C14_getopt_options :
+    Model.optSpec Gen.optstring.toList = [('D', true), ('d', false), ('f', true), ('n', false), ('v', false)] := by
+  decide
+
 /-- Accepted text runs its tree: when `parseConfig` accepts, its blocks are trees of the evaluator (no
 empty block: `confBlocksOf` succeeds and loses nothing, `toPBlocks conf = blocks`) and `mainText` IS
 `mainP` with verdict "accepted" over exactly these trees - as an equality of programs, so every theorem
@@ -577,15 +586,16 @@ theorem C14_error_classes_lexer (pf sf am : Bool) (input : Bytes) :
 
 /-- The lexer-level classes as a statement about whole files: for EVERY byte string `parseConfig` accepts,
 no pattern anywhere in its trees carries both `l` and `u`, and every age is `n * unit` for an `n` below
-2^32 and one of the seven units (an ambiguous or unknown unit, or an integer that does not fit, never
-gets into a tree).  So a configuration in which the parser reads such a token - in any block, at any
+2^32 and `unit` one of the values of `Gen.scalars`, the table `scalars[]` of parse.y regenerated on every run (that
+this table is the documented one - seven units, 1 ... 31536000 - is `C15_units`; an ambiguous or unknown unit, or an
+integer that does not fit, never gets into a tree).  So a configuration in which the parser reads such a token - in any block, at any
 depth, next to whatever else - is not accepted. -/
 theorem C14_error_classes_tokens (home : Bytes) (defs : List (Bytes × Bytes)) (rxOk : Pat → Bool) (input : Bytes) (e : Expr)
     (h : Proofs.Conf.AcceptedNode home defs rxOk input (.leaf e)) :
     (∀ l p, e = .body l p → (p.lcase && p.ucase) = false) ∧
     (∀ l ns p, e = .header l ns p → (p.lcase && p.ucase) = false) ∧
     (∀ l f c age, e = .date l f c age →
-      ∃ n v, age = n * v ∧ n < 2 ^ 32 ∧ v ∈ [1, 60, 3600, 86400, 604800, 2592000, 31536000]) := by
+      ∃ n v, age = n * v ∧ n < 2 ^ 32 ∧ v ∈ Gen.scalars.map (·.2)) := by
   have hc := Proofs.MainText.accepted_leaf_clean h
   refine ⟨fun l p he => by subst he; exact hc, fun l ns p he => by subst he; exact hc, fun l f c age he => ?_⟩
   subst he
